@@ -29,6 +29,8 @@ class Style:
     enum_as_map: float = 0.0     # probability of spelling default-valued enums as a map with values
     hex_values: float = 0.0
     extra_ws: float = 0.0        # blank lines / trailing spaces / non-doc comments
+    self_qualify: float = 0.0    # probability of writing a reference to a type of the package's own namespace as `Ns.Type`
+    own_ns: Optional[str] = None   # set by package_files while the definitions of one package are emitted
     seed: int = 0
     rnd: random.Random = field(default=None, repr=False)
 
@@ -38,6 +40,14 @@ class Style:
 
     def p(self, prob):
         return prob > 0 and self.rnd.random() < prob
+
+
+def _ref_name(t, st) -> str:
+    if t.ns:
+        return t.ns + "." + t.name
+    if st.own_ns and st.p(st.self_qualify):
+        return st.own_ns + "." + t.name
+    return t.name
 
 
 SHORT = lambda: Style()
@@ -85,7 +95,7 @@ def tsimple(t, st: Style) -> Optional[str]:
     if isinstance(t, TP):
         return t.name
     if isinstance(t, N):
-        base = (t.ns + "." if t.ns else "") + t.name
+        base = _ref_name(t, st)
         if not t.args:
             return base
         args = [tsimple(a, st) for a in t.args]
@@ -137,7 +147,7 @@ def tnode(t, st: Style):
     if isinstance(t, (P, TP)) or (isinstance(t, N) and not t.args):
         return s
     if isinstance(t, N):
-        return T("!generic", {"name": (t.ns + "." if t.ns else "") + t.name, "args": [tnode(a, st) for a in t.args]})
+        return T("!generic", {"name": _ref_name(t, st), "args": [tnode(a, st) for a in t.args]})
     if isinstance(t, U):
         if t.explicit:
             d = {}
@@ -395,6 +405,7 @@ def package_files(pkg: Pkg, st: Optional[Style] = None, outputs: Optional[dict] 
         return files
     _seen.add(id(pkg))
     files[pkg.dir + "/_package.yml"] = emit_manifest(pkg, outputs)
+    outer_ns, st.own_ns = st.own_ns, pkg.ns
     if layout is None:
         files[pkg.dir + "/model.yml"] = emit_defs(pkg.defs, st)
     else:
@@ -406,4 +417,5 @@ def package_files(pkg: Pkg, st: Optional[Style] = None, outputs: Optional[dict] 
             files.update(package_files(q, st, None, None, True, _seen))
         for _, q in pkg.versions:
             files.update(package_files(q, st, None, None, True, _seen))
+    st.own_ns = outer_ns
     return files
